@@ -137,6 +137,10 @@ func (vc *VC) execCall(fr *Frame, st *State, pc string, site ssa.Instruction, c 
 	if spec != nil && !spec.Inline {
 		return vc.applyContract(fr, st, pc, callee, spec, args, site)
 	}
+	if callee.Pkg != nil && strings.HasSuffix(callee.Pkg.Pkg.Path(), "/logging") {
+		vc.trusted["logging calls have no effect on modelled state: "+callee.Pkg.Pkg.Path()] = true
+		return vc.havocResults(st, sig.Results())
+	}
 	if callee.Blocks != nil && vc.eng.inScope(callee) {
 		if fr.depth >= maxInlineDepth {
 			vc.unsup("inline depth exceeded at %s", callee)
@@ -298,6 +302,12 @@ func (vc *VC) doAppend(fr *Frame, st *State, pc string, c *ssa.CallCommon) Term 
 	vc.emit(fmt.Sprintf("(assert (forall ((j Int)) (! (=> (and (<= 0 j) (< j %s)) (= (select %s j) (ite (< j (sl.len %s)) (select %s (+ (sl.off %s) j)) %s))) :pattern ((select %s j)))))",
 		n, outA, sN, oldA, sN, tat("(- j (sl.len "+sN+"))"), outA))
 	vc.heapSet(st, key, mkIte(fits, store(mem.S, "(sl.base "+sN+")", inA), store(mem.S, newRef, outA)))
+	// the same facts through the named element accessor (robust triggers for contract quantifiers)
+	ef := vc.elemFn(vc.sortOf(sl.Elem()))
+	nm := vc.heapGet(st, key).S
+	vc.emit(fmt.Sprintf("(assert (forall ((k Int)) (! (=> (and (<= 0 k) (< k (sl.len %s))) (= (%s %s %s k) (%s %s %s k))) :pattern ((%s %s %s k)) :pattern ((%s %s %s k)))))",
+		sN, ef, nm, res, ef, mem.S, sN, ef, nm, res, ef, mem.S, sN))
+	vc.emit(fmt.Sprintf("(assert (=> (>= %s 1) (= (%s %s %s (sl.len %s)) %s)))", tl, ef, nm, res, sN, tat("0")))
 	return Term{S: res, Sort: SSlice, T: c.Args[0].Type()}
 }
 
@@ -814,6 +824,9 @@ func (vc *VC) callEffects(fn *ssa.Function, c *ssa.CallCommon, ms *modSet, depth
 			}
 			return
 		}
+	}
+	if callee.Pkg != nil && strings.HasSuffix(callee.Pkg.Pkg.Path(), "/logging") {
+		return
 	}
 	if callee.Blocks != nil && vc.eng.inScope(callee) {
 		sub := vc.eng.effectsOf(vc, callee)
